@@ -579,7 +579,7 @@ def run(scen, ctx):
     op = scen['op']
     if scen.get('_create_err'):
         return {'classCreateError': scen['_create_err']}
-    if op in ('from_data', 'try_collect', 'into_data', 'roundtrip', 'render', 'build'):
+    if op in ('from_data', 'try_collect', 'into_data', 'roundtrip', 'render', 'build', 'convert2'):
         T, conv, custom = build(ctx, scen)
         if conv is None:
             return custom
@@ -617,6 +617,20 @@ def run(scen, ctx):
                 out = {'text': render_text(e), 'tree': enc_tree(ctx, e.tree)}
             except BaseException as e:  # noqa
                 out = {'raises': map_exc(e)}
+        elif op == 'convert2':
+            r = result_of(ctx, lambda: conv.convert(val))
+            if 'value' not in r:
+                out = r
+            else:
+                x = conv.convert(val)
+                r2 = result_of(ctx, lambda: pane.convert(x, T, custom=custom))
+                out = {'x': ctx.enc(x), 'x2': r2}
+                try:
+                    scen['_intermediate'] = [x, pane.into_data(x, custom=custom)]
+                    y = pane.convert(x, T, custom=custom)
+                    scen['_same_type'] = type(y) is type(x)
+                except BaseException:  # noqa
+                    pass
         elif op == 'roundtrip':
             r = result_of(ctx, lambda: conv.convert(val))
             if 'value' not in r:
